@@ -24,7 +24,12 @@ RULE = (
     "unique and resolving to their own step, the pipeline's own copy()/rebuild; (method) EVERY class of the table "
     "generated from the tree under test x every entry of its canonical-argument table (the run fails when a class has "
     "none) and (mk) mkagg/mktransformer-made classes: copy(), type(m)(**get_parameters()), copy(**override) — "
-    "parameters, constructor-argument attributes and outputs on a random in-domain matrix; constructor refusals; "
+    "parameters, constructor-argument attributes and outputs on a random in-domain matrix — and then, on the SAME "
+    "instance, a random program of two override copies (the entry's own override and another entry's, either order) "
+    "interleaved with writes into dictionaries returned by get_parameters() (update with an override / values changed "
+    "in place and an unknown key / clear), with get_parameters(), copy() and the rebuilt object re-checked against the "
+    "original parameters, attributes and output after every op, and m's output against a deep copy taken at birth "
+    "(pipelines: one write, a second steps= override, then the same re-checks); constructor refusals; "
     "(unames) name lists with repeats and suffix-like names through unique_names and through mkpipe with user classes; "
     "(trace) duck-typed recording steps (transformer / decision maker / both / neither / nested / raising) under random "
     "programs of slices, int and str items, len, evaluate, transform. Non-trivial: the pipeline ran to a result (pipe), "
@@ -937,6 +942,37 @@ def gen_trace(rng):
 HP_POOL = [("scale", Fl(2.0)), ("shift", I(1)), ("tag", S("x")), ("flag", True), ("alpha", Fl(0.5)), ("k", I(3)), ("mode", S("fast")), ("opt", None)]
 
 
+def gen_seq(rng, pool):
+    """a program of parameter-level calls made one after the other on ONE instance m.
+    pool: [(override, override_is_canonical)..], the first one being the case's own override.  Ops:
+      copy    m.copy(**ov)
+      gpset   g = m.get_parameters(); g.update(ov)               (plain writes into the returned dictionary)
+      gpjunk  g = m.get_parameters(); mutable values of g changed in place; g[<unknown name>] = 1
+      gpclear g = m.get_parameters(); g.clear()
+    always two override copies (with different overrides whenever the pool has two), in random order, with random
+    writes into returned dictionaries before / between / after them; after EVERY op the observation records
+    m.get_parameters(), m.copy() and type(m)(**m.get_parameters())."""
+    first = pool[0]
+    others = [p for p in pool[1:] if p[0] != first[0]] or list(pool)
+    pair = [first, rng.choice(others)]
+    rng.shuffle(pair)
+
+    def filler():
+        r = rng.random()
+        if r < 0.3:
+            return []
+        if r < 0.6:
+            return [{"op": "gpset", "ov": rng.choice(pool)[0]}]
+        if r < 0.85:
+            return [{"op": "gpjunk"}]
+        return [{"op": "gpclear"}]
+
+    seq = filler()
+    for ov, can in pair:
+        seq += [{"op": "copy", "ov": ov, "canonical": can}] + filler()
+    return seq
+
+
 def gen(ctx):
     import extract as X
 
@@ -952,8 +988,12 @@ def gen(ctx):
     for cls in table:
         for rep in range(reps):
             d = dm_for_class(rng, cls)
-            for kw, ov, canonical in CANON[cls](rng, d):
-                cases.append({"kind": "method", "cls": cls, "kw": kw, "override": ov, "canonical": canonical, "dm": d})
+            entries = CANON[cls](rng, d)
+            for idx, (kw, ov, canonical) in enumerate(entries):
+                # the later life of the same instance: its own override first, the overrides of the other entries after it
+                pool = [(ov, canonical)] + [(o2, c2) for j, (_, o2, c2) in enumerate(entries) if j != idx]
+                cases.append({"kind": "method", "cls": cls, "kw": kw, "override": ov, "canonical": canonical, "dm": d,
+                              "seq": gen_seq(rng, pool)})
                 if cls == "SIMUS" and rep > 0:
                     break
             if cls in ("SIMUS", "IterativeImputer") and rep >= 1:
@@ -965,12 +1005,16 @@ def gen(ctx):
         hp = rng.sample(HP_POOL, rng.randint(0, 4))
         names = [k for k, _ in hp]
         kw = [[k, rng.choice([Fl(rng.randint(1, 8) / 4), I(rng.randint(0, 3)), S("yy"), False])] for k in names if rng.random() < 0.5]
-        ov = [[k, rng.choice([Fl(rng.randint(1, 8) / 4), I(rng.randint(4, 6)), S("zzz"), True])] for k in names if rng.random() < 0.5]
+        def mk_ov(p=0.5):
+            return [[k, rng.choice([Fl(rng.randint(1, 8) / 4), I(rng.randint(4, 6)), S("zzz"), True])] for k in names if rng.random() < p]
+
+        ov = mk_ov()
         if rng.random() < 0.08:
             kw.append(["nosuch", I(1)])
         cases.append({"kind": "mk", "user": {"maker": rng.choice(["agg", "trans"]), "name": rng.choice(["UserM", "Foo", "Foo_1"]),
                                             "hparams": [[k, v] for k, v in hp]},
-                      "kw": kw, "override": ov, "dm": gen_dm(rng, mix="max")})
+                      "kw": kw, "override": ov, "dm": gen_dm(rng, mix="max"),
+                      "seq": gen_seq(rng, [(ov, True), (mk_ov(0.7), True), (mk_ov(0.7), True)])})
     # ---- pipelines
     for _ in range(ctx.n(110, 2600)):
         d = gen_dm(rng, min_m=4, max_m=10)
@@ -1114,6 +1158,24 @@ def obs_pipe(case):
         c3 = outcome(lambda: pipe.copy(steps=newsteps))
         o["override_ok"] = c3[0] == "ok" and [(n, type(s).__name__, enc_params_ids(s)) for n, s in c3[1].steps] == \
             [(n, type(s).__name__, enc_params_ids(s)) for n, s in newsteps]
+    # later in the life of the same pipeline object: a write into a returned parameter dictionary, a second override
+    # copy with other steps, then get_parameters() / copy() / rebuild once more
+    g = outcome(pipe.get_parameters)
+    if g[0] == "ok":
+        for v in list(g[1].values()):
+            _scribble(v)
+        g[1][_JUNK] = 1
+    laststeps = pipe.steps[-1:]
+    c4 = outcome(lambda: pipe.copy(steps=laststeps))
+    o["override2_ok"] = c4[0] == "ok" and [(n, type(s).__name__, enc_params_ids(s)) for n, s in c4[1].steps] == \
+        [(n, type(s).__name__, enc_params_ids(s)) for n, s in laststeps]
+    o["late_params_eq"] = outcome(enc_params_ids, pipe) == ("ok", P0)
+    c5 = outcome(pipe.copy)
+    c6 = outcome(lambda: type(pipe)(**pipe.get_parameters()))
+    o["late_copy_params_eq"] = c5[0] == "ok" and outcome(enc_params_ids, c5[1]) == ("ok", P0)
+    o["late_rebuild_params_eq"] = c6[0] == "ok" and outcome(enc_params_ids, c6[1]) == ("ok", P0)
+    o["late_copy_out_eq"] = c5[0] == "ok" and ocanon(outcome(c5[1].evaluate, dm)) == o["pipe_E"]
+    o["late_rebuild_out_eq"] = c6[0] == "ok" and ocanon(outcome(c6[1].evaluate, dm)) == o["pipe_E"]
     return o
 
 
@@ -1159,6 +1221,7 @@ def obs_method(case):
     if ctor[0] == "err":
         return {"err": ctor[1], "stage": "ctor"}
     m = ctor[1]
+    twin = outcome(_copy.deepcopy, m)  # the object before anything was asked of it (no get_parameters / copy involved)
     init_names = [p.name for p in inspect.signature(cls.__init__).parameters.values()
                   if p.name != "self" and p.kind not in (p.VAR_POSITIONAL, p.VAR_KEYWORD)]
     readable = [p for p in init_names if _readable(m, p)]
@@ -1183,6 +1246,10 @@ def obs_method(case):
         else:
             o["P" + tag], o["A" + tag] = enc_params(c[1]), enc_attrs(c[1], readable)
             o["type" + tag] = type(c[1]) is type(m)
+    # the later life of the SAME instance (all of it before anything runs: a generator parameter has state)
+    late = None
+    if case.get("seq"):
+        o["seq"], late = _run_seq(m, cls, case, readable)
     dm = mkdm(case["dm"])
     out0 = _run_output(m, dm)
     o["out0"] = ocanon(out0)
@@ -1197,7 +1264,82 @@ def obs_method(case):
         if direct[0] == "ok":
             o["out3"] = ocanon(_run_output(c3[1], dm))
             o["out3_direct"] = ocanon(_run_output(direct[1], dm))
+    if late is not None:
+        for tag, c in (("late_copy", late[0]), ("late_rebuild", late[1])):
+            if c is not None and c[0] == "ok":
+                r = _run_output(c[1], dm)
+                o["out_" + tag] = ocanon(r)
+                if o["out_" + tag] != o["out0"]:
+                    o["detail_" + tag] = [brief(out0), brief(r)]
+        if twin[0] == "ok":
+            r = _run_output(twin[1], dm)
+            o["out_twin"] = ocanon(r)
+            if o["out_twin"] != o["out0"]:
+                o["detail_twin"] = [brief(r), brief(out0)]
     return o
+
+
+_JUNK = "_verif_no_such_parameter_"
+
+
+def _scribble(v):
+    """change a value taken from a returned parameter dictionary in place (the dictionary holds deep copies)"""
+    if isinstance(v, dict):
+        for x in list(v.values()):
+            _scribble(x)
+        v.clear()
+        v[_JUNK] = 0
+    elif isinstance(v, list):
+        v.clear()
+    elif isinstance(v, np.ndarray) and v.dtype.kind in "fiub" and v.flags.writeable:
+        v[...] = 0
+    elif isinstance(v, np.random.Generator):
+        v.random()
+
+
+def _snapshot(c, cls, readable):
+    if c[0] == "err":
+        return {"err": c[1]}
+    return {"P": enc_params(c[1]), "A": enc_attrs(c[1], readable), "type": type(c[1]) is cls}
+
+
+def _run_seq(m, cls, case, readable):
+    """run case["seq"] on the one instance m; after every op: what m says about itself, m.copy(), the rebuilt object.
+    Returns (records, (last copy, last rebuilt object))"""
+    recs = []
+    last = (None, None)
+    for op in case["seq"]:
+        rec = {"op": op["op"]}
+        if op["op"] == "copy":
+            ov = {k: dec(v, k) for k, v in op["ov"]}
+            rec["copy"] = _snapshot(outcome(lambda: m.copy(**ov)), cls, readable)
+            if "err" in rec["copy"]:
+                # is it the class that refuses these arguments together? (built from the case's own arguments, afresh)
+                args = {k: dec(v, k) for k, v in case["kw"]}
+                args.update({k: dec(v, k) for k, v in op["ov"]})
+                d = outcome(lambda: cls(**args))
+                rec["direct"] = {"err": d[1]} if d[0] == "err" else {"built": True}
+        else:
+            g = outcome(m.get_parameters)
+            if g[0] == "err":
+                rec["gp_err"] = g[1]
+            elif op["op"] == "gpset":
+                g[1].update({k: dec(v, k) for k, v in op["ov"]})
+            elif op["op"] == "gpjunk":
+                for v in list(g[1].values()):
+                    _scribble(v)
+                g[1][_JUNK] = 1
+            elif op["op"] == "gpclear":
+                g[1].clear()
+        pm = outcome(enc_params, m)
+        after = {"P": pm[1] if pm[0] == "ok" else {"err": pm[1]}, "A": enc_attrs(m, readable)}
+        c1 = outcome(m.copy)
+        c2 = outcome(lambda: type(m)(**m.get_parameters()))
+        after["copy"], after["rebuild"] = _snapshot(c1, cls, readable), _snapshot(c2, cls, readable)
+        rec["after"] = after
+        last = (c1, c2)
+        recs.append(rec)
+    return recs, last
 
 
 def _readable(m, p):
@@ -1348,6 +1490,10 @@ def requests(case, obs):
         if k != "refusal":
             reqs.append(dict(op="ctor", kw=case["kw"], copy=[], **head))
             reqs.append(dict(op="ctor", kw=case["kw"], copy=case["override"], **head))
+            # the model is a pure function: an override copy taken later in the life of m is copy(ov) of the same object
+            for op in case.get("seq", []) if "seq" in obs else []:
+                if op["op"] == "copy":
+                    reqs.append(dict(op="ctor", kw=case["kw"], copy=op["ov"], **head))
         return reqs
     if k == "pipe":
         return [{"op": "unames", "names": obs["lnames"]}] if "lnames" in obs else []
@@ -1365,6 +1511,97 @@ def _k4_shape(names):
                 if cnt.get("%s_%d" % (n, k), 0) == 1:
                     return True
     return False
+
+
+def _seq_text(ops):
+    def one(op):
+        if op["op"] == "copy":
+            return "m.copy(**%s)" % json.dumps(dict(op["ov"]), sort_keys=True)
+        if op["op"] == "gpset":
+            return "m.get_parameters().update(%s)" % json.dumps(dict(op["ov"]), sort_keys=True)
+        if op["op"] == "gpjunk":
+            return "g = m.get_parameters(); <values of g changed in place>; g[%r] = 1" % _JUNK
+        return "m.get_parameters().clear()"
+    return "; ".join(one(op) for op in ops)
+
+
+def _judge_seq(case, obs, replies, name, prop, corr):
+    """override copies, and copy() / rebuild / get_parameters() after them, on ONE instance: the property at every
+    moment of the life of m.  Stops at the first op after which something is wrong (what follows is a consequence)."""
+    seq, recs = case.get("seq", []), obs.get("seq", [])
+    if not recs:
+        return
+    P0, A0 = obs["P0"], obs["A0"]
+    P0d = dict((k, v) for k, v in P0)
+    A0d = dict((k, json.dumps(v)) for k, v in A0)
+    ri = 0
+    for i, (op, rec) in enumerate(zip(seq, recs)):
+        before = _seq_text(seq[:i])
+        found = []
+
+        def P(what, expected=None, observed=None):
+            found.append(what)
+            prop("%s: %s" % (name, what), expected, observed)
+
+        if op["op"] == "copy":
+            reply = replies[ri] if ri < len(replies) else {}
+            ri += 1
+            ov = dict((k, v) for k, v in op["ov"])
+            c = rec["copy"]
+            how = "copy(**%s)%s" % (json.dumps(ov, sort_keys=True), (" made after [%s]" % before) if before else "")
+            if "err" in c:
+                if rec.get("direct", {}).get("built"):
+                    P("%s raised %s although %s(<the same arguments>) can be built" % (how, c["err"], case.get("cls", "the class")),
+                      op["ov"], c["err"])
+                if reply.get("err") != c["err"]:
+                    corr("%s: %s refusal, model vs implementation" % (name, how), reply, c["err"])
+            else:
+                Pc = dict((k, v) for k, v in c["P"])
+                extra = sorted(k for k in P0d if Pc.get(k) != P0d[k] and k not in ov)
+                if extra or set(Pc) != set(P0d):
+                    P("%s changed parameters that were not overridden: %s" % (how, extra or sorted(set(Pc) ^ set(P0d))),
+                      {"override": op["ov"], "before": P0}, c["P"])
+                if not c["type"]:
+                    P("%s changed the class" % how)
+                if op.get("canonical", True):
+                    wrong = [k for k in ov if k in Pc and Pc[k] != ov[k]]
+                    if wrong:
+                        P("%s did not store the overriding value of %s" % (how, wrong), op["ov"], c["P"])
+                Ac = dict((k, json.dumps(v)) for k, v in c["A"])
+                moved = [k for k in A0d if Ac.get(k) != A0d[k] and k not in ov]
+                if moved:
+                    P("%s changed exposed constructor arguments that were not overridden: %s" % (how, moved), A0, c["A"])
+                if "err" in reply or sorted(reply.get("params", [])) != c["P"]:
+                    corr("%s: parameters after %s, model vs implementation" % (name, how), reply, c["P"])
+        elif "gp_err" in rec:
+            P("get_parameters() raised %s after [%s]" % (rec["gp_err"], before), P0, rec["gp_err"])
+        after = rec["after"]
+        hist = _seq_text(seq[: i + 1])
+        if after["P"] != P0:
+            P("m.get_parameters() no longer gives the parameters m was built with, after [%s]" % hist, P0, after["P"])
+        if after["A"] != A0:
+            P("the constructor arguments m exposes changed after [%s]" % hist, A0, after["A"])
+        for key, what in (("copy", "m.copy()"), ("rebuild", "type(m)(**m.get_parameters())")):
+            c = after[key]
+            if "err" in c:
+                P("%s raised %s after [%s]" % (what, c["err"], hist), P0, c["err"])
+                continue
+            if not c["type"]:
+                P("%s changed the class after [%s]" % (what, hist))
+            if c["P"] != P0:
+                P("%s after [%s] does not have the parameters of m" % (what, hist), P0, c["P"])
+            if c["A"] != A0:
+                P("%s after [%s] changed a constructor argument that the object exposes" % (what, hist), A0, c["A"])
+        if found:
+            return
+    hist = _seq_text(seq)
+    for key, what in (("late_copy", "m.copy()"), ("late_rebuild", "type(m)(**m.get_parameters())")):
+        if "out_" + key in obs and obs["out_" + key] != obs["out0"]:
+            prop("%s: %s made after [%s] gives a different output on the same matrix" % (name, what, hist),
+                 *obs.get("detail_" + key, [obs["out0"], obs["out_" + key]]))
+    if "out_twin" in obs and obs["out_twin"] != obs["out0"]:
+        prop("%s: the output of m itself changed after [%s] (compared with a deep copy of m taken before)" % (name, hist),
+             *obs.get("detail_twin", [obs["out_twin"], obs["out0"]]))
 
 
 def judge(case, obs, replies):
@@ -1424,7 +1661,7 @@ def judge(case, obs, replies):
 
     if kind in ("method", "mk"):
         name = case["cls"] if kind == "method" else case["user"]["name"] + " (" + case["user"]["maker"] + ")"
-        r0, r1, r3 = replies
+        r0, r1, r3 = replies[:3]
         if "err" in obs and obs.get("stage") == "ctor":
             if kind == "method":
                 prop("%s refused its canonical arguments with %s" % (name, obs["err"]), case["kw"], obs["err"])
@@ -1478,6 +1715,8 @@ def judge(case, obs, replies):
                 prop("%s: copy(**override) behaves differently from the object built with the same arguments" % name, obs["out3_direct"], obs["out3"])
             if "err" in r3 or sorted(r3["params"]) != obs["P3"]:
                 corr("%s: parameters after copy(**override), model vs implementation" % name, r3, obs["P3"])
+        # --- the same calls later in the life of the same instance
+        _judge_seq(case, obs, replies[3:], name, prop, corr)
         return out
 
     if kind == "pipe":
@@ -1528,7 +1767,14 @@ def judge(case, obs, replies):
                           ("rebuild_params_eq", "SKCPipeline(**pipe.get_parameters()) changed the parameters"),
                           ("copy_out_eq", "copy() of the pipeline evaluates differently"),
                           ("rebuild_out_eq", "the rebuilt pipeline evaluates differently"),
-                          ("override_ok", "pipe.copy(steps=...) does not hold the overriding steps")):
+                          ("override_ok", "pipe.copy(steps=...) does not hold the overriding steps"),
+                          ("override2_ok", "a second pipe.copy(steps=<other steps>) on the same pipeline does not hold the overriding steps"),
+                          ("late_params_eq", "get_parameters() of the pipeline changed after override copies / writes into a returned dictionary"),
+                          ("late_copy_params_eq", "copy() made after override copies / writes into a returned dictionary does not have the pipeline's parameters"),
+                          ("late_rebuild_params_eq", "SKCPipeline(**pipe.get_parameters()) made after override copies / writes into a returned "
+                                                     "dictionary does not have the pipeline's parameters"),
+                          ("late_copy_out_eq", "copy() made after override copies / writes into a returned dictionary evaluates differently"),
+                          ("late_rebuild_out_eq", "the pipeline rebuilt after override copies / writes into a returned dictionary evaluates differently")):
             if obs.get(key) is False:
                 prop("pipeline as a method: " + what)
         r = replies[0]
